@@ -7,7 +7,7 @@ struct WsInFrame { bool fin; int rsv; int opcode; bool masked; uint64_t len; std
 enum WsClass { W_NONE = 0, W_TEXT, W_PING, W_PONG, W_CLOSE_OK, W_1002, W_1007, W_1002_OR_1007, W_FRAG, W_BINARY };
 
 struct Input {
-	enum T { MSG, DROP, GONE, TIMER, HS, WSFRAME } t = MSG;
+	enum T { MSG, DROP, GONE, TIMER, HS, WSFRAME, CONN } t = MSG;   // CONN: accepted connection (only recorded for the state oracle after injected allocation failures)
 	int c = -1; std::string text; int fd = -1; WsInFrame wf; std::string why; int wscls = 0;
 };
 
@@ -108,6 +108,21 @@ struct World : KernelHooks, ModelHost {
 	void on_file_op(const char *op, long result) override;
 	void on_alloc_fail(uint64_t index) override;
 	long fault_turn = -1; uint64_t faults_fired = 0; long canary_turn = -1;
+	// state oracle after injected allocation failures (world_shadow.cpp): the element image must stay explicable by the reference model with
+	// every request that was being processed when an allocation failed either carried out or not
+	struct Cand { Model m; bool alive = true; int parent = 0; };
+	struct ShadowGet { std::vector<int> rc; std::vector<JV> sets; bool ambiguous = false; };
+	bool shadow_enabled = false, shadow_active = false, shadow_undecidable = false, shadow_probe_sent = false; std::string shadow_why;
+	std::vector<Cand> cands, snap_cands; std::vector<Input> since_snap;
+	std::map<std::pair<int, std::string>, ShadowGet> shadow_gets, snap_gets;
+	uint64_t shadow_checks = 0;
+	void shadow_mark();                       // the daemon starts handling a new event: what follows is what a failing allocation can affect
+	void shadow_log(const Input &in);         // an input reached the model (exact mode) or the candidates (afterwards)
+	void shadow_fork();                       // an allocation has just been made to fail
+	void shadow_apply(std::vector<Cand> &cs, const Input &in, bool fork);
+	void shadow_check_get(Client &cl, const Frame &f);
+	void shadow_give_up(const std::string &why);
+	bool shadow_send_probe();
 	bool reload_checked = false;
 	std::vector<JV> pw_changes;          // password changes the reference model applied, in order (C20)
 	void password_changed(const std::string &user, const std::string &oldpw, const std::string &newpw, bool tentative) override;
